@@ -592,3 +592,22 @@ CHECKS['C01']['level_text'] = CHECKS['C01']['level_text'] + (" MEMBERSHIP (Props
 CHECKS['C16']['protos'].append({'name': 'streamw', 'mode': 'oracle', 'quick_seeds': 1, 'thorough_seeds': 2})
 CHECKS['C16']['rule'] = CHECKS['C16']['rule'] + ("; protocol streamw (oracle): backlogs of 1 .. 3*streamBufSize/2+7 messages of 1-4 interleaved groups (sizes around the forced-flush limit streamBufSize/2 and the "
     "channel capacity), queued before / while the connection is attached, through the REAL streamWriter goroutine of both stream types, read back by the real decoders: same sequence")
+# ---- C15: the data node's namespace registry (work package wV): which partition count routing uses when a namespace is re-created
+CHECKS['C15']['props'] = ['ZanVerif.Props.C15', 'ZanVerif.Props.C15Registry']
+CHECKS['C15']['gens'] = CHECKS['C15']['gens'] + ['Registry']
+CHECKS['C15']['protos'].append(dict(name='nsreg', spec=True, quick_seeds=2, thorough_seeds=2))
+CHECKS['C15']['rule'] = CHECKS['C15']['rule'] + (" || nsreg: sessions on a REAL node.NamespaceMgr (rafthttp transport, nsMgr.Start(); every partition a real single-replica raft group on pebble created by InitNamespaceNode and really started with Start(false), removed by NamespaceNode.Destroy + the stopped callback) "
+    "with 2-3 base names per session (a, ns, default, t_1, X9; every other session also names containing '-' and digits: a-1, ns-2-x, b-0, x-y, thorough: the trailing-dash name a- next to a), their scripts interleaved step by step; per base name a first generation with 1-8 (thorough: up to 16) partitions, complete or partial (only some partitions local), then 1-3 transitions: "
+    "re-create N->M with the partitions replaced one after another in a random order (an old partition still registered when the first new one is created; M larger / smaller / not dividing / 1), re-create after all partitions are gone, a partition of another generation that comes and goes while the old ones stay, restart of partitions with the same count, error cases (count 0 / negative, a registered full name again with another count, destroy of an absent partition); "
+    "after every step 2-16 routed keys (sequential tb:keyN and the adversarial keys of protocol c15), meta and registry dumps; 14 sessions (~5000 ops) per quick seed, 150 per thorough seed; every line compared with the Lean registry model, the Go oracle judges routing by the SDK formula in every state without a partition of an older generation; non-trivial = answered without error; distinct = distinct op lines")
+CHECKS['C15']['level_text'] = CHECKS['C15']['level_text'] + (" NAMESPACE REGISTRY (node/namespace.go NamespaceMgr: InitNamespaceNode, onNamespaceStopped, GetNamespaceNodeWithPrimaryKeySum, common.GetNsDesp / GetNamespaceAndPartition modelled character by character): for EVERY sequence of partition creations, stops and routings from the empty registry "
+    "(partition indexes machine ints >= 0): a registered partition always has its meta and the meta is the partition count of the LAST successful creation of that base name; for base names without '-' the meta exists iff a partition is registered; routing answers partition sdkPartition(pk, N) for that N - never an index >= N - and partition-not-found exactly when that partition is not registered; "
+    "after a namespace was re-created with count N (only N used for the base since, one creation succeeded) and 0..N-1 are registered, every key is served by exactly one registered node, the partition the client computes with N, and with no older partition left it is one created with N (C15_recreate_completed). "
+    "The model is tied to a real NamespaceMgr with real raft groups line by line (protocol nsreg); as its answers are what the property prescribes, a differing answer of the real code is a failing input. "
+    "The decisions of InitNamespaceNode (PartitionNum guard, mismatch test, what is stored on first creation and on a mismatch) are REGENERATED from the source into Gen/Registry.lean and the invariants are re-proved over them on every run; the statement order of InitNamespaceNode, the stopped callback, the routing lookup and GetNsDesp / GetNamespaceAndPartition are pinned by the extractor.")
+CHECKS['C15']['partial'] = CHECKS['C15']['partial'] + [
+    "registry: the count of the registered partitions alone does not fix the divisor (theorem C15_registered_counts_alone_do_not_fix_the_meta, witness init a 0 2; init a 1 2; init a 2 3; destroy a 2; route a 'k3' -> a-0 while a client of the 2-partition namespace computes a-1): the registry follows the LAST creation; which generation a same-named partition belongs to (magic code) and when the coordinator replaces old partitions is outside this model",
+    "registry: a base name containing '-' never parses back from its full name (GetNamespaceAndPartition splits at the first '-'), so its meta is not dropped when its last partition stops (theorem C15_dash_base_keeps_meta; the placement driver refuses such names: common.IsValidNamespaceName); routing is unaffected",
+    "registry: partitions are always started (the IsReady branch of routing is not reachable in protocol nsreg); the shared rocksdb WAL of the meta (walEng, UseRocksWAL) is off; Close() instead of Destroy() and concurrent init / stop / route are not driven"]
+CHECKS['C15']['assumptions'] = CHECKS['C15']['assumptions'] + ["registry theorems: partition indexes are ints in [0, 2^63) (strconv.Itoa / Atoi round trip)"]
+CHECKS['C15']['technique'] = CHECKS['C15']['technique'] + " + executable registry model vs a real NamespaceMgr with real raft groups"
